@@ -1,4 +1,5 @@
 import TrionModel.Lemmas.AsmScopeRel
+import TrionModel.Lemmas.AsmScopeProv
 /-!
 # C14 on the whole-pipeline model — constant visibility follows file scope
 
@@ -297,23 +298,8 @@ theorem frame_asm {fs : Bytes → Option Bytes} {enc : Encoder} {fuel : Nat} {en
        parseFile data = .ok (els, perr) ∧
        st2.locals = some [] ∧ st2.globals = L ∧ st2.localTasks = some [] ∧
        fileBody fs enc (assembleFile fs enc fuel') ⟨path :: env.paths, path⟩ data st2 = .ok (st4, r4) ∧
-       st4.locals = some C ∧ st'.locals = some L' ∧ Upd (fileNames els) L L' C) := by
-  rcases includeDirective_cases _ _ h with ⟨k, rfl⟩ | ⟨data, path, st1, r1, hfs, hinc, hst⟩
-  · exact ⟨rfl, .inl ⟨hL, k, rfl⟩⟩
-  · cases fuel with
-    | zero => simp [assembleFile] at hinc
-    | succ fuel' =>
-      obtain ⟨st2, st4, els, perr, C, h1, h2, h3, h4, h5, _, h7, h8, h9, h10, _⟩ :=
-        assembleFile_inside (assembleFile_rel fs enc fuel') hL hinc
-      have key : st1.globals = st.globals ∧ ∃ fuel'' path data els perr st2 st4 r4 C L', fuel' + 1 = fuel'' + 1 ∧
-          fs path = some data ∧ parseFile data = .ok (els, perr) ∧
-          st2.locals = some [] ∧ st2.globals = L ∧ st2.localTasks = some [] ∧
-          fileBody fs enc (assembleFile fs enc fuel'') ⟨path :: env.paths, path⟩ data st2 = .ok (st4, r4) ∧
-          st4.locals = some C ∧ st1.locals = some L' ∧ Upd (fileNames els) L L' C :=
-        ⟨h10, fuel', path, data, els, perr, st2, st4, r1, C, st4.globals, rfl, hfs, h5, h1, h2, h3, h4, h7, h8, h9⟩
-      rcases hst with rfl | ⟨k, rfl⟩
-      · exact ⟨key.1, .inr key.2⟩
-      · exact ⟨key.1, .inr key.2⟩
+       st4.locals = some C ∧ st'.locals = some L' ∧ Upd (fileNames els) L L' C) :=
+  frame_aux hL h
 
 /-- C14.frame_asm (the main file)  The same for the main file, assembled from outside any file: the "includer's table"
 is the real global table. -/
@@ -357,16 +343,8 @@ that makes it. -/
 theorem isolation_asm_define {st st' : St} {l : Table} {n : Bytes} {v : Int} {x : Except CErr Bool}
     (hl : st.locals = some l) (h : insertConstant st n v .loc = .ok (st', x)) :
     st'.globals = st.globals ∧
-    ∃ l', st'.locals = some l' ∧ ∀ m, l'.find m = l.find m ∨ (m = n ∧ l'.find m = some (some v)) := by
-  rcases insertConstant_char h with ⟨rfl, _⟩ | ⟨t, b, _, ht, _, ht', ho, _, _, _⟩
-  · exact ⟨rfl, l, hl, fun _ => .inl rfl⟩
-  · simp only [St.tab, Realm.other, Option.some.injEq] at ht ht' ho
-    rw [hl] at ht; cases ht
-    refine ⟨ho, _, ht', fun m => ?_⟩
-    rw [find_set]
-    by_cases e : n = m
-    · subst e; exact .inr ⟨rfl, by simp⟩
-    · rw [if_neg e]; exact .inl rfl
+    ∃ l', st'.locals = some l' ∧ ∀ m, l'.find m = l.find m ∨ (m = n ∧ l'.find m = some (some v)) :=
+  define_char hl h
 
 /-- the statements that define: `n:` at the region cursor, `.const n, e` with the value of `e` -/
 theorem isolation_asm_define_stmt {fs : Bytes → Option Bytes} {enc : Encoder} {inc : Inc} {env : Env} {st st' : St}
@@ -376,36 +354,8 @@ theorem isolation_asm_define_stmt {fs : Bytes → Option Bytes} {enc : Encoder} 
     st'.globals = st.globals ∧
     ∃ l', st'.locals = some l' ∧ ∀ m, l'.find m = l.find m ∨
       (∃ v, l'.find m = some (some v) ∧
-        ((el.val = .label m) ∨ ∃ args e, el.val = .directive (bytesOf "const") args ∧ args.toList = [.ident m, e])) := by
-  have keep : ∀ {st1 : St}, st1.globals = st.globals → st1.locals = st.locals →
-      st1.globals = st.globals ∧ ∃ l', st1.locals = some l' ∧ ∀ m, l'.find m = l.find m ∨
-      (∃ v, l'.find m = some (some v) ∧
         ((el.val = .label m) ∨ ∃ args e, el.val = .directive (bytesOf "const") args ∧ args.toList = [.ident m, e])) :=
-    fun hg hl' => ⟨hg, l, hl'.trans hl, fun _ => .inl rfl⟩
-  rcases hk with ⟨n, hv⟩ | ⟨args, hv⟩
-  · simp only [statement, hv] at h
-    repeat' split at h
-    all_goals (first | (cases h; done) | (cases h; exact keep rfl rfl) | skip)
-    all_goals
-      rename_i hi
-      obtain ⟨hg, l', hl', hm⟩ := isolation_asm_define hl hi
-      cases h
-      refine ⟨hg, l', hl', fun m => ?_⟩
-      rcases hm m with e | ⟨rfl, e⟩
-      · exact .inl e
-      · exact .inr ⟨_, e, .inl hv⟩
-  · simp only [statement, hv, directive_const] at h
-    unfold constDirective at h
-    repeat' split at h
-    all_goals (first | (cases h; done) | (cases h; exact keep rfl rfl) | (cases h; exact keep (evalStrict_quiet ‹evalStrict _ _ _ _ _ _ = _›).globals (evalStrict_quiet ‹evalStrict _ _ _ _ _ _ = _›).locals) | skip)
-    all_goals
-      rename_i hi
-      obtain ⟨hg, l', hl', hm⟩ := isolation_asm_define hl hi
-      cases h
-      refine ⟨hg, l', hl', fun m => ?_⟩
-      rcases hm m with e | ⟨rfl, e⟩
-      · exact .inl e
-      · exact .inr ⟨_, e, .inr ⟨args, _, hv, ‹args.toList = _›⟩⟩
+  isolation_define_aux hl hk h
 
 /-- C14.isolation_asm (downwards only by `.import`)  `.import n` changes nothing but the entry `n` of the file's own
 table, which becomes the includer's entry for `n` (same value, or still unvalued); the includer's table is literally
@@ -413,45 +363,8 @@ untouched. -/
 theorem isolation_asm_import {env : Env} {st st' : St} {l : Table} {line col : Nat} {args : List Arg} {r : Res}
     (hl : st.locals = some l) (h : globalDirective .import_ env st line col args = .ok (st', r)) :
     st'.globals = st.globals ∧
-    ∃ l', st'.locals = some l' ∧ ∀ m, l'.find m = l.find m ∨ (args = [.ident m] ∧ l'.find m = st.globals.find m) := by
-  have keep : ∀ {st1 : St}, st1.globals = st.globals → st1.locals = st.locals →
-      st1.globals = st.globals ∧ ∃ l', st1.locals = some l' ∧ ∀ m, l'.find m = l.find m ∨
-        (args = [.ident m] ∧ l'.find m = st.globals.find m) :=
-    fun hg hl' => ⟨hg, l, hl'.trans hl, fun _ => .inl rfl⟩
-  unfold globalDirective at h
-  repeat' (first | split at h | simp only at h)
-  all_goals (first | (cases h; done) | (cases h; exact keep rfl rfl) | skip)
-  all_goals (first | exact absurd trivial ‹¬True› | exact absurd ‹GDir.import_ = GDir.global› (by decide) | exact absurd ‹GDir.import_ = GDir.export_› (by decide) | exact absurd rfl ‹¬GDir.import_ = GDir.import_› | skip)
-  -- the includer's entry is unvalued: announce it locally
-  all_goals (try (
-    have hgc := ‹getConstant st _ Realm.global = Out.ok Simp.Lookup.deferred›
-    have hd := ‹deferConstant st _ Realm.loc = _›
-    have hgf : st.globals.find _ = some none := get_deferred (by simpa [getConstant] using hgc)
-    rcases deferConstant_char hd with ⟨rfl, _⟩ | ⟨t, _, ht, _, ht', ho, _, _⟩
-    · cases h; exact keep rfl rfl
-    · simp only [St.tab, Realm.other, Option.some.injEq] at ht ht' ho
-      rw [hl] at ht; cases ht
-      cases h
-      refine ⟨ho, _, ht', fun m => ?_⟩
-      rw [find_set]
-      split
-      · rename_i e; subst e; exact .inr ⟨rfl, by simp [hgf]⟩
-      · exact .inl rfl))
-  -- the includer's entry has a value: copy it
-  all_goals (
-    have hgc := ‹getConstant st _ Realm.global = Out.ok (Simp.Lookup.found _)›
-    have hi := ‹insertConstant st _ _ Realm.loc = _›
-    have hgf : st.globals.find _ = some (some _) := get_found (by simpa [getConstant] using hgc)
-    rcases insertConstant_char hi with ⟨rfl, _⟩ | ⟨t, b, _, ht, _, ht', ho, _, _, _⟩
-    · cases h; exact keep rfl rfl
-    · simp only [St.tab, Realm.other, Option.some.injEq] at ht ht' ho
-      rw [hl] at ht; cases ht
-      cases h
-      refine ⟨ho, _, ht', fun m => ?_⟩
-      rw [find_set]
-      split
-      · rename_i e; subst e; exact .inr ⟨rfl, by simp [hgf]⟩
-      · exact .inl rfl)
+    ∃ l', st'.locals = some l' ∧ ∀ m, l'.find m = l.find m ∨ (args = [.ident m] ∧ l'.find m = st.globals.find m) :=
+  import_aux hl h
 
 /-- C14.isolation_asm (uses never write)  `.du8/.du16/.du32`, `.addr`, `.align`, `.dhex/.dstr/.dfile`, every instruction
 — with any operands, deferred or not — and the retries they queue change no table. -/
@@ -477,15 +390,71 @@ theorem isolation_asm_include {fs : Bytes → Option Bytes} {enc : Encoder} {fue
         parseFile data = .ok (els, perr) ∧ st2.locals = some [] ∧ st2.globals = L ∧
         fileBody fs enc (assembleFile fs enc fuel') ⟨path :: env.paths, path⟩ data st2 = .ok (st4, r4) ∧
         st4.locals = some C ∧ m ∈ fileNames els ∧ C.find m = some (some v) := by
-  rcases (frame_asm hL h).2 with ⟨hl', _⟩ | ⟨fuel', path, data, els, perr, st2, st4, r4, C, L', hf, hfs, hp, h1, h2, _, h4, h5, h6, u⟩
-  · exact ⟨L, hl', fun m v hv => .inl hv⟩
-  · refine ⟨L', h6, fun m v hv => ?_⟩
-    rcases u m with e | ⟨hn, _, hc⟩
-    · rw [e] at hv; exact .inl hv
-    · rcases hc with ⟨v', hc1, hc2⟩ | ⟨_, hc2⟩
-      · rw [hc2] at hv; cases hv
-        exact .inr ⟨fuel', path, data, els, perr, st2, st4, r4, C, hf, hfs, hp, h1, h2, h4, h5, hn, hc1⟩
-      · rw [hc2] at hv; cases hv
+  obtain ⟨L', hL', hm⟩ := include_aux hL h
+  exact ⟨L', hL', fun m v hv => (hm m v hv).imp id (fun ⟨a, b, c, d, e, f, g, r4, i, h1, h2, h3, h4, h5, _, h6, h7, h8, h9⟩ =>
+    ⟨a, b, c, d, e, f, g, r4, i, h1, h2, h3, h4, h5, h6, h7, h8, h9⟩)⟩
+
+/-- C14.isolation_asm (a file's own table, whole file)  Take any file of the include tree — the main file or an
+included one at any depth — assembled by `fileBody` from the empty table, with all its statements, complete nested
+includes and its task loop, and let `C'` be its own table at the end.  Then every valued entry `m = v` of `C'` has an
+origin in a statement of the file's OWN text `els` (what `data` parses into):
+
+* a definition `m:` / `.const m, e`; or
+* an `.import m` — and the includer's table (the file's `globals`) has `m = v`; or
+* an `.include` statement whose file sent `m` up (`SentUp`): that file was itself assembled from the empty table, its own
+  text has `.export m` / `.global m`, and its own final table has `m = v` — to which this theorem applies again.
+
+So a file sees only what it defines, what it imports from its includer, and what the files it includes export or declare
+global; following `SentUp` downwards and `.import` upwards yields the chain that ends at a definition `m = v`. -/
+theorem isolation_asm_file {fs : Bytes → Option Bytes} {enc : Encoder} {fuel : Nat} {env : Env} {data : Bytes}
+    {st st' : St} {r : Res} {C' : Table} (hC : st.locals = some []) (hq : st.localTasks = some [])
+    (h : fileBody fs enc (assembleFile fs enc fuel) env data st = .ok (st', r)) (hC' : st'.locals = some C') :
+    ∃ els perr, parseFile data = .ok (els, perr) ∧ ∀ m v, C'.find m = some (some v) →
+      (∃ el ∈ els, defines m el) ∨ ((∃ el ∈ els, imports m el) ∧ st'.globals.find m = some (some v)) ∨
+      (∃ el ∈ els, isInclude el ∧ ∃ L, SentUp fs enc fuel env L m v) :=
+  fileBody_origin hC hq h hC'
+
+/-- C14.isolation_asm (one statement)  The same classification for a single statement at any position of a file: an entry
+valued afterwards was valued before, or the statement defines it, or imports it (the includer has it, with this value), or
+is an `.include` whose file sent it up.  `.global`, `.export`, `.du*`, instructions, `.addr/.align/.dhex/.dstr/.dfile`
+create no valued entry. -/
+theorem isolation_asm_statement {fs : Bytes → Option Bytes} {enc : Encoder} {fuel : Nat} {env : Env} {st st' : St}
+    {C C' : Table} {el : Element} {r : Res} (hC : st.locals = some C) (hC' : st'.locals = some C')
+    (h : statement fs enc (assembleFile fs enc fuel) env st el = .ok (st', r)) :
+    ∀ m v, C'.find m = some (some v) → C.find m = some (some v) ∨ defines m el ∨
+      (imports m el ∧ st.globals.find m = some (some v)) ∨ (isInclude el ∧ SentUp fs enc fuel env C m v) :=
+  statement_origin hC hC' h
+
+/-- … and the end-of-file tasks (closures of `.global`, retries) never touch the file's own table. -/
+theorem isolation_asm_tasks {enc : Encoder} {env : Env} {n : Nat} {ts : List Task} {st st' : St} {res r : Res}
+    (h : localLoop enc env n ts st res = .ok (st', r)) : st'.locals = st.locals :=
+  localLoop_locals n ts st res _ _ h
+
+/-- C14.isolation_asm (whole tree: the chain ends at a definition)  If NO file of the project has a label `m:` or a
+`.const m, …` (`NoDef fs m`), then `m` never has a value anywhere: for every file of the include tree, at every depth
+(`fuel` = remaining include depth), assembled from the empty table by an includer whose table has no value for `m` —
+the file's own final table has no value for `m`, and neither has the includer's table afterwards.  (Induction on the
+include depth over `isolation_asm_statement`: `.import` needs the includer's value, `.include` needs the child's, and
+`.export`/`.global` copy only the file's own value.)  Contrapositive: wherever a name resolves, a chain of
+`.import` / `.export` / `.global` edges leads to a file that defines it. -/
+theorem isolation_asm_undefined {fs : Bytes → Option Bytes} {enc : Encoder} {m : Bytes} (hnd : NoDef fs m) (fuel : Nat)
+    {env : Env} {data path : Bytes} {st st' : St} {r : Res} (hfs : fs path = some data) (hC : st.locals = some [])
+    (hq : st.localTasks = some []) (hg : ∀ w, st.globals.find m ≠ some (some w))
+    (h : fileBody fs enc (assembleFile fs enc fuel) env data st = .ok (st', r)) :
+    (∀ C', st'.locals = some C' → ∀ w, C'.find m ≠ some (some w)) ∧ ∀ w, st'.globals.find m ≠ some (some w) :=
+  nodef_file hnd fuel env data path st st' r hfs hC hq hg h
+
+/-- … in particular after the main file of a project the real global table has no value for such a name -/
+theorem isolation_asm_undefined_main {fs : Bytes → Option Bytes} {enc : Encoder} {m : Bytes} (hnd : NoDef fs m)
+    {fuel : Nat} {data main : Bytes} {st' : St} {r : Res} (hfs : fs main = some data)
+    (h : assembleFile fs enc fuel Env.init St.init data main = .ok (st', r)) :
+    ∀ w, st'.globals.find m ≠ some (some w) := by
+  cases fuel with
+  | zero => simp [assembleFile] at h
+  | succ fuel =>
+    obtain ⟨st4, _, _, _, hb, _, _, _, _, _, hg4, _, _⟩ := assembleFile_outside (st := St.init) rfl rfl h
+    rw [hg4]
+    exact (nodef_file hnd fuel _ data main _ st4 r hfs rfl rfl (fun w hw => by simp [St.init, Table.find] at hw) hb).2
 
 /-! ## non-vacuity -/
 
